@@ -441,7 +441,7 @@ int main(int argc, char **argv) {
   {
     // all ordered event lists (order matters for tie-breaking in the priority queues)
     std::vector<double> A = thorough ? std::vector<double>{1e-6, 1e-3, 1.0, std::nextafter(1.0, 2.0), 2.0, 1e6} : std::vector<double>{1e-6, 1.0, 2.0, 1e6};
-    int Lmax = 7;
+    int Lmax = thorough ? 8 : 7;
     for (int L = 1; L <= Lmax; L++) {
       std::vector<int> idx((size_t)L, 0), radix((size_t)L, (int)A.size());
       long long cnt = 0;
@@ -451,15 +451,6 @@ int main(int argc, char **argv) {
         c.decay = (L >= 2 && cnt % 3 == 0) ? L - 1 : -1;
         trees.push_back(c);
         cnt++;
-      } while (bsx::next(idx, radix));
-    }
-    if (thorough) {  // length 8 over the quick alphabet
-      std::vector<double> B{1e-6, 1.0, 2.0, 1e6};
-      std::vector<int> idx(8, 0), radix(8, 4);
-      do {
-        TreeCase c;
-        for (int k = 0; k < 8; k++) c.rates.push_back(B[(size_t)idx[(size_t)k]]);
-        trees.push_back(c);
       } while (bsx::next(idx, radix));
     }
     std::vector<long> ns = thorough ? std::vector<long>{} : std::vector<long>{8, 9, 10, 15, 16, 17, 31, 32, 33, 63, 64, 99, 100};
@@ -522,8 +513,8 @@ int main(int argc, char **argv) {
   }
   R.counters["time_cases_total"] = (long long)times.size();
 
-  R.rule = std::string("(tree) every ORDERED event list of length 1..7 over the rate alphabet ") +
-           (thorough ? "{1e-6,1e-3,1,1+ulp,2,1e6} plus length 8 over {1e-6,1,2,1e6}" : "{1e-6,1,2,1e6}") +
+  R.rule = std::string("(tree) every ORDERED event list of length 1.." + std::string(thorough ? "8" : "7") + " over the rate alphabet ") +
+           (thorough ? "{1e-6,1e-3,1,1+ulp,2,1e6}" : "{1e-6,1,2,1e6}") +
            " (12 decades, equal rates, odd/even counts) and long lists n in " + (thorough ? "1..100" : "{8,9,10,15,16,17,31,32,33,63,64,99,100}") +
            " x {all equal, geometric over 12 decades up/down, one dominant 1e12, one tiny 1e-12, ramp, alternating, mixed}: ALL decision thresholds of "
            "huffmanTree<T> (tiny T) and of GNode's tree are read, findHoppingDestination is evaluated at 0, 1, every threshold, its two neighbours "
@@ -535,16 +526,24 @@ int main(int argc, char **argv) {
            "returns the lookup's answer. distinct_nontrivial = distinct partitions (event order along [0,1]) + distinct (carrier, ln k12/k21) + distinct dt";
 
   long long gi = 0;  // global case index for sharding
+  long long crashes = 0;
+  const long long MAXCRASH = 24;
   // trees: contained (a broken tree may crash)
   {
     std::vector<long long> mine;
     for (long long i = 0; i < (long long)trees.size(); i++) if (a.mine(gi + i)) mine.push_back(i);
     gi += (long long)trees.size();
     bsx::contained(
-        0, (long long)mine.size(), [&](long long j) { return run_tree(trees[(size_t)mine[(size_t)j]]); },
+        0, (long long)mine.size(),
+        [&](long long j) {
+          if (crashes >= MAXCRASH) { bsx::Outcome s; s.extra = "SKIPPED"; return s; }  // the child is re-forked after every crash and sees the count
+          return run_tree(trees[(size_t)mine[(size_t)j]]);
+        },
         [&](long long j, const bsx::Outcome &o) {
           const TreeCase &c = trees[(size_t)mine[(size_t)j]];
+          if (o.extra == "SKIPPED") { R.cap("more than " + std::to_string(MAXCRASH) + " crashing cases: remaining tree cases skipped"); return; }
           R.eval(); R.counters["tree_cases"]++;
+          if (!o.ok && o.key == "fatal") crashes++;
           if (!o.ok) {
             std::string key = o.key == "fatal" ? std::string("tree-crash-") + (c.rates.size() % 2 ? "odd" : "even") : o.key;
             R.fail(key, o.what + (o.key == "fatal" ? "  rates=" + ratehuman(c.rates) : ""), treestr(c));
@@ -562,10 +561,16 @@ int main(int argc, char **argv) {
     gi += (long long)rates.size();
     long long shown = 0;
     bsx::contained(
-        0, (long long)mine.size(), [&](long long j) { return run_rate(rates[(size_t)mine[(size_t)j]]); },
+        0, (long long)mine.size(),
+        [&](long long j) {
+          if (crashes >= MAXCRASH) { bsx::Outcome s; s.extra = "SKIPPED"; return s; }
+          return run_rate(rates[(size_t)mine[(size_t)j]]);
+        },
         [&](long long j, const bsx::Outcome &o) {
           long long i = mine[(size_t)j];
           const RateCase &c = rates[(size_t)i];
+          if (o.extra == "SKIPPED") { R.cap("more than " + std::to_string(MAXCRASH) + " crashing cases: remaining rate cases skipped"); return; }
+          if (!o.ok && o.key == "fatal") crashes++;
           R.eval(); R.counters["rate_cases"]++;
           if (!o.ok) { R.fail(o.key == "fatal" ? "rate-crash" : o.key, o.what + (o.key == "fatal" ? "  [" + ratecasehuman(c) + "]" : ""), ratecasestr(c)); return; }
           R.cls(o.cls);
@@ -578,10 +583,16 @@ int main(int argc, char **argv) {
     for (long long i = 0; i < (long long)times.size(); i++) if (a.mine(gi + i)) mine.push_back(i);
     long long shown = 0;
     bsx::contained(
-        0, (long long)mine.size(), [&](long long j) { return run_time(times[(size_t)mine[(size_t)j]]); },
+        0, (long long)mine.size(),
+        [&](long long j) {
+          if (crashes >= MAXCRASH) { bsx::Outcome s; s.extra = "SKIPPED"; return s; }
+          return run_time(times[(size_t)mine[(size_t)j]]);
+        },
         [&](long long j, const bsx::Outcome &o) {
           long long i = mine[(size_t)j];
           const TimeCase &c = times[(size_t)i];
+          if (o.extra == "SKIPPED") { R.cap("more than " + std::to_string(MAXCRASH) + " crashing cases: remaining waiting-time cases skipped"); return; }
+          if (!o.ok && o.key == "fatal") crashes++;
           R.eval(); R.counters["time_cases"]++;
           if (!o.ok) { R.fail(o.key == "fatal" ? "time-crash" : o.key, o.what + (o.key == "fatal" ? "  [u=" + bsx::fmt(c.u) + " k=" + bsx::fmt(c.k) + "]" : ""), timestr(c)); return; }
           if (o.cls) R.cls(o.cls);
